@@ -44,6 +44,13 @@ def close(a, b, tol):
     return abs(a[0] - b[0]) <= tol and abs(a[1] - b[1]) <= tol
 
 
+PARSE_BUDGET = 20000
+
+
+class ParseUndecided(Exception):
+    pass
+
+
 def parse_piece(ctrl, res, j0, tol):
     """All result indices j1 > j0 such that result pieces j0..j1 parse as an aligned dyadic partition of
     [0,1] of the cubic `ctrl`.  Returns (set of j1, max depth used)."""
@@ -52,11 +59,17 @@ def parse_piece(ctrl, res, j0, tol):
     seen = set()
     maxdepth = [0]
     stack = [(j0, F(0), 0)]
+    work = 0
     while stack:
         j, a, depth_used = stack.pop()
         if (j, a) in seen:
             continue
         seen.add((j, a))
+        work += 1
+        if work > PARSE_BUDGET:
+            # a (nearly) degenerate cubic admits astronomically many parses; the search is cut deterministically
+            # and the caller treats the piece as undecided (counted), never as a failure
+            raise ParseUndecided()
         if a == 1:
             ends.add(j)
             maxdepth[0] = max(maxdepth[0], depth_used)
@@ -137,22 +150,32 @@ def body(ctx, case):
         ctx.record(case, classes, inserted > 0)
         ctx.fail("%s: first node moved" % what, case)
     deepest = 0
+    identity_undecided = False
     for k in range(len(orig) - 1):
         ctrl = (orig[k][1], orig[k][2], orig[k + 1][0], orig[k + 1][1])
         nxt = set()
+        undecided = False
         for j0 in sorted(reach):
-            ends, depth = parse_piece(ctrl, res, j0, tol)
+            try:
+                ends, depth = parse_piece(ctrl, res, j0, tol)
+            except ParseUndecided:
+                undecided = True
+                break
             for j1 in ends:
                 if res[j1][1] == orig[k + 1][1]:      # the original node itself survives, exactly
                     nxt.add(j1)
                     deepest = max(deepest, depth)
+        if undecided:
+            identity_undecided = True
+            ctx.count("curve_identity_undecided(parse budget)")
+            break
         if not nxt:
             ctx.record(case, classes, inserted > 0)
             ctx.fail("%s: the result nodes after original node %d do not trace original piece %d as a "
                      "partition into dyadic sub-curves ending at original node %d (result has %d nodes)"
                      % (what, k, k, k + 1, len(res)), case)
         reach = nxt
-    if (len(res) - 1) not in reach:
+    if not identity_undecided and (len(res) - 1) not in reach:
         ctx.record(case, classes, inserted > 0)
         ctx.fail("%s: result has nodes beyond the image of the last original node" % what, case)
     if deepest >= 5:
